@@ -24,6 +24,11 @@ type runTracerouteOnceFnType func(ctx context.Context, params TracerouteParams, 
 var runTracerouteOnceFn = runTracerouteOnce
 
 func runTracerouteOnce(ctx context.Context, params TracerouteParams, destinationPort int) (*result.TracerouteRun, error) {
+	// TTLs travel in a single byte: reject bounds that cannot be represented instead of letting them wrap
+	if params.MinTTL < 1 || params.MaxTTL > 255 || params.MinTTL > params.MaxTTL {
+		return nil, fmt.Errorf("invalid TTL range: min TTL %d and max TTL %d must satisfy 1 <= min <= max <= 255", params.MinTTL, params.MaxTTL)
+	}
+
 	var trRun *result.TracerouteRun
 	switch params.Protocol {
 	case "udp":
